@@ -275,6 +275,9 @@ func TestC17_Filter(t *testing.T) {
 	rapid.Check(t, func(t *rapid.T) {
 		p := fullProfile(2)
 		p.MaxLen = 5
+		if rapid.IntRange(0, 11).Draw(t, "bigContainer") == 0 {
+			p.MaxLen = 40
+		}
 		// element type and container
 		var et *uni.Type
 		switch rapid.IntRange(0, 5).Draw(t, "elemShape") {
